@@ -32,8 +32,8 @@ theorem Fr.fastRead (r : R) (n : Nat) : Fr r (fastRead r n).r := by
   repeat' split
   all_goals first | exact Fr.refl _ | exact ⟨rfl, rfl, by simp⟩
 
-theorem Fr.readTagValue (r : R) (t : Tag) : Fr r (readTagValue r t).r := by
-  unfold Exif.readTagValue
+theorem Fr.readTagValue0 (r : R) (t : Tag) : Fr r (readTagValue0 r t).r := by
+  unfold Exif.readTagValue0
   simp only []
   have h0 : Fr r (if t.isEmbedded then { r with hazard := true } else r) := by split <;> exact ⟨rfl, rfl, Nat.le_refl _⟩
   generalize (if t.isEmbedded then { r with hazard := true } else r) = r0 at h0 ⊢
@@ -44,6 +44,10 @@ theorem Fr.readTagValue (r : R) (t : Tag) : Fr r (readTagValue r t).r := by
     cases e with
     | some k => exact Fr.trans h0 h1
     | none => exact Fr.trans h0 (Fr.trans h1 (Fr.fastRead r1 t.size))
+
+theorem Fr.readTagValue (r : R) (t : Tag) : Fr r (readTagValue r t).r := by
+  have := Fr.readTagValue0 r t
+  exact ⟨this.tags, this.pos, this.len⟩
 
 /-- a parser returning (state, value) keeps the frame -/
 def FrP {β} (x : Outcome (R × β)) (r : R) : Prop := ∀ r' v, x = .ok (r', v) → Fr r r'
